@@ -132,7 +132,7 @@ def _merkle_worker(args):
         variant, rows, cols, dim, b, nt = j
         pt = PermTable()
         S = perm_summaries(mod, pt)
-        names = mod.find_re(r'^PoseidonGoldilocks::%s\(' % variant)
+        names = harness.family(mod, r'^PoseidonGoldilocks::%s\(' % variant)
         vals = {'num_cols': cols, 'num_rows': rows, 'nThreads': nt, 'dim': dim}
         if b is not None:
             vals['batch_size'] = b
@@ -225,7 +225,7 @@ def run(rep, tier, seed):
     mod = front.module('avx2', omp=True, sroa=True)
     npc = 0
     for fname, hasrc in (('parcpy', True), ('parSetZero', False)):
-        names = mod.find_re(r'^Goldilocks::%s\(' % fname)
+        names = harness.family(mod, r'^Goldilocks::%s\(' % fname)
         for size in (range(0, 41) if tier == 'quick' else list(range(0, 130)) + [255, 256, 257, 1000]):
             for nt in range(-1, 10):
                 npc += 1
